@@ -191,7 +191,7 @@ func (d *directedNode) stop() bool {
 	d.cancel()
 	done := make(chan struct{})
 	go func() {
-		t, c := context.WithTimeout(context.Background(), 4*time.Second)
+		t, c := context.WithTimeout(context.Background(), 8*time.Second) // WaitUntilShutdown gives up (and returns) when this expires: it must outlast the verdict below
 		defer c()
 		d.waiter.WaitUntilShutdown(t)
 		close(done)
@@ -507,6 +507,22 @@ func directedInboxFlood(rep *Report, seed int64) {
 	case <-time.After(4 * time.Second):
 		fail("C14", "main-loop-blocked", "directed: the main loop stopped taking messages while the worker was inside an SPI call (more messages than the worker's inbox holds)")
 		fail("C12", "wedged-by-message-burst", "directed: 1300 well-formed messages while the worker was inside an SPI call wedged the node: the main loop no longer takes messages, syncs or election triggers")
+		// ... and with the main loop stuck nothing can cancel the context the worker's SPI call waits on: neither the election
+		// trigger of its view nor a sync is taken any more
+		rel := make(chan error, 1)
+		go func() {
+			c, cancel := context.WithTimeout(d.ctx, 1500*time.Millisecond)
+			defer cancel()
+			rel <- d.lh.UpdateState(c, &vblock{height: 3, id: 9003}, d.cdc.syncProof(3))
+		}()
+		select {
+		case err := <-rel:
+			if err != nil {
+				fail("C15", "spi-not-released-main-loop-blocked", fmt.Sprintf("directed: the worker sits in ValidateBlockProposal of (1,0); after a burst of messages a sync to block 3 is not even accepted (%v): the call's context is never cancelled", err))
+			}
+		case <-time.After(3 * time.Second):
+			fail("C15", "spi-not-released-main-loop-blocked", "directed: the worker sits in ValidateBlockProposal of (1,0); after a burst of messages UpdateState(block 3) does not return: the call's context is never cancelled")
+		}
 		return
 	}
 	res := make(chan error, 1)
@@ -712,7 +728,66 @@ func directedLeaveCommitteeThenShutdown(rep *Report, seed int64) {
 	}
 }
 
+// a node that is being caught up by a fast stream of UpdateState calls (each newer block supersedes the one still
+// waiting in the worker's slot) and is then shut down: the main loop must not be caught between "the slot is full" and
+// "the worker has just emptied it" - WaitUntilShutdown returns, UpdateState keeps returning (C16, C14)
+func directedSyncStreamThenShutdown(rep *Report, seed int64) {
+	d := newDirectedNode(seed)
+	fail := func(prop, sig, detail string) { rep.finding(prop, sig, detail, map[string]interface{}{"script": "sync-stream-then-shutdown"}) }
+	rep.count("runtime:directed-sync-stream-then-shutdown")
+	go d.lh.UpdateState(d.ctx, nil, nil)
+	if !d.waitFor("NR", 1, 0, 3*time.Second) {
+		rep.count("runtime:directed-setup-failed")
+		d.stop()
+		return
+	}
+	var next uint64 = 1
+	var accepted, blocked int64
+	stopFlood := make(chan struct{})
+	var wg sync.WaitGroup
+	var proofMu sync.Mutex
+	for g := 0; g < 3; g++ {
+		wg.Add(1)
+		go func() {
+			defer wg.Done()
+			for {
+				select {
+				case <-stopFlood:
+					return
+				default:
+				}
+				h := atomic.AddUint64(&next, 1)
+				c, cancel := context.WithTimeout(d.ctx, time.Second)
+				proofMu.Lock() // the codec's proof cache is not made for several goroutines
+				proof := d.cdc.syncProof(h)
+				proofMu.Unlock()
+				err := d.lh.UpdateState(c, &vblock{height: primitives.BlockHeight(h), id: 9000 + h}, proof)
+				if c.Err() == context.DeadlineExceeded {
+					atomic.AddInt64(&blocked, 1)
+					cancel()
+					return
+				}
+				cancel()
+				if err == nil {
+					atomic.AddInt64(&accepted, 1)
+				}
+			}
+		}()
+	}
+	time.Sleep(1200 * time.Millisecond)
+	close(stopFlood)
+	wg.Wait()
+	rep.count(fmt.Sprintf("runtime:sync-stream-accepted-%dk", atomic.LoadInt64(&accepted)/1000))
+	if atomic.LoadInt64(&blocked) > 0 {
+		fail("C14", "updatestate-blocked", fmt.Sprintf("directed: after %d accepted syncs in a row an UpdateState call did not return within 1 s: the main loop no longer takes requests", atomic.LoadInt64(&accepted)))
+	}
+	if !d.stop() {
+		fail("C16", "shutdown-hangs", fmt.Sprintf("directed: a stream of %d accepted syncs, then cancellation: WaitUntilShutdown did not return within 4.5 s", atomic.LoadInt64(&accepted)))
+	}
+}
+
 func runDirected(rep *Report, seed int64, thorough bool) {
+	directedSyncStreamThenShutdown(rep, seed+106)
 	directedStaleHeightTrigger(rep, seed+104)
 	directedLeaveCommitteeThenShutdown(rep, seed+105)
 	directedLateProposalOfElectedLeader(rep, seed+103)
